@@ -1080,6 +1080,15 @@ func (env *Env) specCall(sf *SpecFunc, args []Value, pol int) Value {
 	out := Value{T: rt, C: make([]*Term, len(rl))}
 	for j, c := range rl {
 		out.C[j] = UF("spec."+sf.Name+c.Suffix, c.Sort, flat...)
+		// references and lengths denoted by specification functions are non-negative by convention
+		if !out.C[j].open {
+			switch c.Kind {
+			case "ref", "sbase", "slen", "soff":
+				env.ex.assume(True, Ge(out.C[j], IntLit(0)))
+			case "int":
+				env.ex.assume(True, inRange(out.C[j], c.GoT))
+			}
+		}
 	}
 	return out
 }
